@@ -73,6 +73,9 @@ Definition c_type_word (ws : list string) (i0 : nat) (r : crow) : string :=
   else if c_nnc r && (last (c_expr r) 0 <? 0)%Z then W ws (i0 + 2)
   else W ws (i0 + 1).
 
+Definition c_eps_ok (r : crow) : bool := c_eq r || negb (c_nnc r) || (2 <=? length (c_expr r))%nat.
+Definition wf_crow (r : crow) : Prop := c_eps_ok r = true.
+
 Definition dump_constraint : writer crow :=
   fun r rest =>
     dump_linexpr (c_expr r)
@@ -89,15 +92,20 @@ Definition load_constraint : parser crow :=
     nnc <- (if String.eqb str2 (paren (W constraint_load_words 3)) then ret true
             else if String.eqb str2 (paren (W constraint_load_words 4)) then ret false else fail) ;;
     let r := CRow e iseq nnc in
+    (* type() of an NNC inequality reads the epsilon coefficient: on an expression with fewer than
+       two coefficients Variable(space_dimension() - 1) throws std::length_error (load rejected) *)
+    guard (c_eps_ok r) ;;;
     guard (String.eqb str (c_type_word constraint_load_words 5 r)) ;;; ret r).
 
-Lemma RT_constraint : RT (fun _ => True) dump_constraint load_constraint.
+Lemma RT_constraint : RT wf_crow dump_constraint load_constraint.
 Proof.
-  intros [e iseq nnc] rest _. unfold load_constraint, lenient, dump_constraint. cbn [c_expr c_eq c_nnc].
+  intros [e iseq nnc] rest Hw. unfold wf_crow, c_eps_ok in Hw. cbn [c_expr c_eq c_nnc] in Hw.
+  unfold load_constraint, lenient, dump_constraint. cbn [c_expr c_eq c_nnc].
   rewrite load_linexpr_RT.
   unfold c_type_word; cbn [c_expr c_eq c_nnc].
   destruct iseq, nnc; try (destruct (last e 0 <? 0)%Z eqn:El);
-    unfold bind, p_word, guard, c_type_word; cbn [c_expr c_eq c_nnc andb]; try rewrite El; reflexivity.
+    unfold bind, p_word, guard, c_type_word, c_eps_ok; cbn [c_expr c_eq c_nnc andb orb negb] in *;
+    try rewrite El; try rewrite Hw; reflexivity.
 Qed.
 
 (** * Generator *)
@@ -109,6 +117,10 @@ Definition g_type_word (ws : list string) (i0 : nat) (r : genrow) : string :=
   else if (hd 0 (g_expr r) =? 0)%Z then W ws (i0 + 1)
   else if g_nnc r && (last (g_expr r) 0 =? 0)%Z then W ws (i0 + 3)
   else W ws (i0 + 2).
+
+Definition g_eps_ok (r : genrow) : bool :=
+  g_line r || (hd 0 (g_expr r) =? 0)%Z || negb (g_nnc r) || (2 <=? length (g_expr r))%nat.
+Definition wf_genrow (r : genrow) : Prop := g_eps_ok r = true.
 
 Definition dump_generator : writer genrow :=
   fun r rest =>
@@ -127,15 +139,18 @@ Definition load_generator : parser genrow :=
     nnc <- (if String.eqb str2 (paren (W generator_load_words 4)) then ret false
             else if String.eqb str2 (paren (W generator_load_words 5)) then ret true else fail) ;;
     let r := GRow e isline nnc in
+    guard (g_eps_ok r) ;;;          (* as for constraints: the epsilon coefficient must exist when type() reads it *)
     guard (String.eqb str (g_type_word generator_load_words 6 r)) ;;; ret r).
 
-Lemma RT_generator : RT (fun _ => True) dump_generator load_generator.
+Lemma RT_generator : RT wf_genrow dump_generator load_generator.
 Proof.
-  intros [e isline nnc] rest _. unfold load_generator, lenient, dump_generator. cbn [g_expr g_line g_nnc].
+  intros [e isline nnc] rest Hw. unfold wf_genrow, g_eps_ok in Hw. cbn [g_expr g_line g_nnc] in Hw.
+  unfold load_generator, lenient, dump_generator. cbn [g_expr g_line g_nnc].
   rewrite load_linexpr_RT.
   unfold g_type_word; cbn [g_expr g_line g_nnc].
   destruct isline, nnc; destruct (hd 0 e =? 0)%Z eqn:Eh; try (destruct (last e 0 =? 0)%Z eqn:El);
-    unfold bind, p_word, guard, g_type_word; cbn [g_expr g_line g_nnc andb]; try rewrite Eh; try rewrite El; reflexivity.
+    unfold bind, p_word, guard, g_type_word, g_eps_ok; cbn [g_expr g_line g_nnc andb orb negb] in *;
+    try rewrite Eh; try rewrite El; try rewrite Hw; reflexivity.
 Qed.
 
 (** * Congruence *)
@@ -197,64 +212,73 @@ Record row_class (R : Type) := {
   rc_load : parser R;
   rc_space_dim : R -> nat;            (* Row::space_dimension() *)
   rc_grow : nat -> R -> R;            (* Row::set_space_dimension_no_ok(d), d >= space_dimension() *)
+  rc_wf : R -> Prop;                  (* the row can be dumped at all (type() does not throw) *)
 }.
-Arguments rc_dump {R}. Arguments rc_load {R}. Arguments rc_space_dim {R}. Arguments rc_grow {R}.
+Arguments rc_dump {R}. Arguments rc_load {R}. Arguments rc_space_dim {R}. Arguments rc_grow {R}. Arguments rc_wf {R}.
 
 Definition constraint_class : row_class crow :=
   {| rc_dump := dump_constraint; rc_load := load_constraint;
      rc_space_dim := fun r => length (c_expr r) - 1 - (if c_nnc r then 1 else 0);
      rc_grow := fun d r => if c_nnc r then CRow (grow_keep_last (d + 2) (c_expr r)) (c_eq r) (c_nnc r)
-                           else CRow (grow_plain (d + 1) (c_expr r)) (c_eq r) (c_nnc r) |}.
+                           else CRow (grow_plain (d + 1) (c_expr r)) (c_eq r) (c_nnc r);
+     rc_wf := wf_crow |}.
 Definition generator_class : row_class genrow :=
   {| rc_dump := dump_generator; rc_load := load_generator;
      rc_space_dim := fun r => length (g_expr r) - 1 - (if g_nnc r then 1 else 0);
      rc_grow := fun d r => if g_nnc r then GRow (grow_keep_last (d + 2) (g_expr r)) (g_line r) (g_nnc r)
-                           else GRow (grow_plain (d + 1) (g_expr r)) (g_line r) (g_nnc r) |}.
+                           else GRow (grow_plain (d + 1) (g_expr r)) (g_line r) (g_nnc r);
+     rc_wf := wf_genrow |}.
 Definition congruence_class : row_class cgrow :=
   {| rc_dump := dump_congruence; rc_load := load_congruence;
      rc_space_dim := fun r => length (cg_expr r) - 1;
-     rc_grow := fun d r => CgRow (grow_plain (d + 1) (cg_expr r)) (cg_mod r) |}.
+     rc_grow := fun d r => CgRow (grow_plain (d + 1) (cg_expr r)) (cg_mod r);
+     rc_wf := fun _ => True |}.
 Definition grid_generator_class : row_class ggrow :=
   {| rc_dump := dump_grid_generator; rc_load := load_grid_generator;
      rc_space_dim := fun r => length (gg_expr r) - 2;
-     rc_grow := fun d r => GgRow (grow_keep_last (d + 2) (gg_expr r)) (gg_line r) |}.
+     rc_grow := fun d r => GgRow (grow_keep_last (d + 2) (gg_expr r)) (gg_line r);
+     rc_wf := fun _ => True |}.
 
 (** a row is well-formed for a system of dimension [d] when its own dimension is [d] and it has
     at least the special columns (so that the subtraction above is exact) *)
 Definition row_fits {R} (C : row_class R) (d : nat) (r : R) : Prop :=
-  rc_space_dim C r = d /\ rc_grow C d r = r.
+  rc_space_dim C r = d /\ rc_grow C d r = r /\ rc_wf C r.
 
 Lemma crow_fits : forall d r, length (c_expr r) = d + 1 + (if c_nnc r then 1 else 0) -> row_fits constraint_class d r.
 Proof.
-  intros d [e q n] H. cbn [c_expr c_nnc] in H. unfold row_fits. cbn [rc_space_dim rc_grow constraint_class c_expr c_eq c_nnc]. split.
+  intros d [e q n] H. cbn [c_expr c_nnc] in H. unfold row_fits. cbn [rc_space_dim rc_grow rc_wf constraint_class c_expr c_eq c_nnc]. split; [|split].
   - destruct n; lia.
   - destruct n.
     + replace (d + 2) with (length e) by lia. rewrite grow_keep_last_same. reflexivity.
     + replace (d + 1) with (length e) by lia. rewrite grow_plain_same. reflexivity.
+  - unfold wf_crow, c_eps_ok. cbn [c_expr c_eq c_nnc]. destruct q, n; cbn [orb negb]; try reflexivity.
+    apply Nat.leb_le. lia.
 Qed.
 Lemma genrow_fits : forall d r, length (g_expr r) = d + 1 + (if g_nnc r then 1 else 0) -> row_fits generator_class d r.
 Proof.
-  intros d [e q n] H. cbn [g_expr g_nnc] in H. unfold row_fits. cbn [rc_space_dim rc_grow generator_class g_expr g_line g_nnc]. split.
+  intros d [e q n] H. cbn [g_expr g_nnc] in H. unfold row_fits. cbn [rc_space_dim rc_grow rc_wf generator_class g_expr g_line g_nnc]. split; [|split].
   - destruct n; lia.
   - destruct n.
     + replace (d + 2) with (length e) by lia. rewrite grow_keep_last_same. reflexivity.
     + replace (d + 1) with (length e) by lia. rewrite grow_plain_same. reflexivity.
+  - unfold wf_genrow, g_eps_ok. cbn [g_expr g_line g_nnc]. destruct q, n, (hd 0 e =? 0)%Z; cbn [orb negb]; try reflexivity.
+    apply Nat.leb_le. lia.
 Qed.
 Lemma cgrow_fits : forall d r, length (cg_expr r) = d + 1 -> row_fits congruence_class d r.
 Proof.
-  intros d [e m] H. cbn [cg_expr] in H. unfold row_fits. cbn [rc_space_dim rc_grow congruence_class cg_expr cg_mod]. split; [lia|].
+  intros d [e m] H. cbn [cg_expr] in H. unfold row_fits. cbn [rc_space_dim rc_grow rc_wf congruence_class cg_expr cg_mod]. split; [lia|split; [|exact I]].
   replace (d + 1) with (length e) by lia. rewrite grow_plain_same. reflexivity.
 Qed.
 Lemma ggrow_fits : forall d r, length (gg_expr r) = d + 2 -> row_fits grid_generator_class d r.
 Proof.
-  intros d [e m] H. cbn [gg_expr] in H. unfold row_fits. cbn [rc_space_dim rc_grow grid_generator_class gg_expr gg_line]. split; [lia|].
+  intros d [e m] H. cbn [gg_expr] in H. unfold row_fits. cbn [rc_space_dim rc_grow rc_wf grid_generator_class gg_expr gg_line]. split; [lia|split; [|exact I]].
   replace (d + 2) with (length e) by lia. rewrite grow_keep_last_same. reflexivity.
 Qed.
 
 (** * Row insertion ([Linear_System::insert_pending_no_ok], [Congruence_System::insert_verbatim]) *)
 Section Systems.
 Context {R : Type} (C : row_class R).
-Hypothesis C_RT : RT (fun _ => True) (rc_dump C) (rc_load C).
+Hypothesis C_RT : RT (rc_wf C) (rc_dump C) (rc_load C).
 
 Definition sys_insert (st : nat * list R) (r : R) : nat * list R :=
   let '(sd, rows) := st in
@@ -273,8 +297,8 @@ Lemma load_rows_RT : forall l sd acc rest, Forall (row_fits C sd) l ->
 Proof.
   induction l as [|r t IH]; intros sd acc rest HF.
   - cbn. rewrite app_nil_r. reflexivity.
-  - inversion HF as [|? ? Hfit HF']; subst. destruct Hfit as [Hd Hg].
-    cbn [length load_rows w_many]. unfold bind. rewrite (C_RT r _ I).
+  - inversion HF as [|? ? Hfit HF']; subst. destruct Hfit as (Hd & Hg & Hw).
+    cbn [length load_rows w_many]. unfold bind. rewrite (C_RT r _ Hw).
     unfold sys_insert. rewrite Hd, Nat.ltb_irrefl, Hg.
     rewrite (IH sd (acc ++ [r]) rest HF'). rewrite <- app_assoc. reflexivity.
 Qed.
@@ -400,10 +424,13 @@ Arguments ps_dim {R}. Arguments ps_sparse {R}. Arguments ps_rows {R}.
 (** the four concrete systems *)
 Definition RT_constraint_system := RT_linsys constraint_class RT_constraint.
 Definition RT_generator_system := RT_linsys generator_class RT_generator.
-Definition RT_grid_generator_system := RT_linsys grid_generator_class RT_grid_generator.
-Definition RT_congruence_system := RT_plainsys congruence_class RT_congruence.
+Definition RT_grid_generator_system := RT_linsys grid_generator_class (fun r rest _ => RT_grid_generator r rest I).
+Definition RT_congruence_system := RT_plainsys congruence_class (fun r rest _ => RT_congruence r rest I).
 
 Example wf_linsys_sat :
   wf_linsys constraint_class
     (LinSys true 2 false true 1 [CRow [3; -1; -1; 0]%Z false true; CRow [1; 0; 0; -1]%Z false true]).
 Proof. repeat constructor. Qed.
+
+Example wf_crow_sat : wf_crow (CRow [1; 0; -1]%Z false true) /\ wf_genrow (GRow [1; 1; 2; 1]%Z false true).
+Proof. split; reflexivity. Qed.
